@@ -1,74 +1,143 @@
 (* C39 — The mount's node cache follows renames and deletes.
-   Only statements closed by [exact]; proofs live in proof/FsCacheProofs.v.
+   Only statements closed by [exact]; proofs live in proof/FsCacheProofs.v and
+   proof/FsCacheRef.v.
 
    Model: model/FsCache.v ([tree], [set]/[ensure]/[get]/[delete]/[move] mirror
-   weed/filesys/fscache.go).  Reference: the flat map path -> node ([rmap]) with
-   subtree delete and subtree move. *)
+   weed/filesys/fscache.go).  Two references, both flat (no tree):
+     [rmap]    the map path -> node with subtree delete and subtree move (the
+               property's "reference tree": a path exists iff something is
+               bound at or below it);
+     [pstate]  the same map plus the set of directories that exist, so that
+               directories emptied by a delete or a move are remembered. *)
 From Coq Require Import String List NArith Bool.
-From SW Require Import model.FsCache proof.FsCacheProofs.
+From SW Require Import model.FsCache proof.FsCacheProofs proof.FsCacheRef.
 Import ListNotations.
 Local Open Scope string_scope.
 Local Open Scope list_scope.
 
-(* FULL statement ("after any sequence ... every path returns exactly the
-   reference's node") is FALSE for the code as it is: a placeholder FsNode left
-   behind by a delete is still a movable source, and moving it wipes the target. *)
+(* FULL statement against the flat map ("after any sequence ... every path
+   returns exactly the reference's node") is FALSE for the code as it is: an
+   emptied directory is still a movable source, and moving it wipes the target.
+   Witness (3 operations): Set /a/x; Move /a/x /b; Move /a /b; lookup /b. *)
 Theorem c39_refines_reference_tree_refuted : exists root ops q,
   forallb valid_op ops = true /\
   get (run (init root) ops) q <> r_get (r_run (r_init root) ops) q.
-Proof. exact refines_reference_refuted. Qed.
+Proof. exact refines_reference_refuted3. Qed.
 Print Assumptions c39_refines_reference_tree_refuted.
 
-(* Strongest true statement: for every operation sequence that never moves such
-   an empty placeholder onto a path holding nodes (decidable [trigger]), every
-   lookup of every path equals the reference tree's. *)
+(* FULL statement against the reference that remembers emptied directories: for
+   EVERY valid history, every lookup of every path equals the reference's, and an
+   FsNode (bound or placeholder) exists exactly at the reference's directories.
+   So the ghost move is the ONLY way the cache deviates from the flat map. *)
+Theorem c39_refines_placeholder_reference : forall root ops, forallb valid_op ops = true ->
+  forall q, get (run (init root) ops) q = p_get (p_run (p_init root) ops) q
+         /\ has (run (init root) ops) q = p_has (p_run (p_init root) ops) q.
+Proof. exact refines_placeholder_reference. Qed.
+Print Assumptions c39_refines_placeholder_reference.
+
+(* ... and every value handed back to the caller (Get/Ensure node, whether Ensure
+   ran its generator, whether Move returned a non-nil FsNode) equals that reference's. *)
+Theorem c39_placeholder_returns_agree : forall root ops o, forallb valid_op ops = true ->
+  snd (step (run (init root) ops) o) = snd (p_step (p_run (p_init root) ops) o).
+Proof. exact placeholder_returns_agree. Qed.
+Print Assumptions c39_placeholder_returns_agree.
+
+(* Strongest true statement against the flat map: for every operation sequence
+   that never moves an emptied directory onto a path holding nodes, every lookup
+   of every path equals the flat map's.  The trigger [ptrigger] is decided on the
+   two references alone (no model tree). *)
 Theorem c39_refines_reference_tree_partial : forall root ops,
   forallb valid_op ops = true ->
-  trigger root ops = false ->
+  ptrigger root ops = false ->
   forall q, get (run (init root) ops) q = r_get (r_run (r_init root) ops) q.
-Proof. exact refines_reference_partial. Qed.
+Proof. exact refines_reference_partial_p. Qed.
 Print Assumptions c39_refines_reference_tree_partial.
 
-(* ... and so do the values handed back to the caller: the node returned by
-   Get/Ensure, whether Ensure ran its generator; Move's non-nil result agrees
-   whenever the source is not a bare placeholder. *)
+(* The same per step, from ANY point of ANY valid history (ghost moves may have
+   happened before): a step that is not itself a ghost move acts on the cache
+   content exactly as the flat-map operation acts on that content. *)
+Theorem c39_step_refines_reference_partial : forall root ops o,
+  forallb valid_op ops = true -> valid_op o = true ->
+  let t := run (init root) ops in let s := p_run (p_init root) ops in
+  pghost_here s o = false ->
+  forall q, get (fst (step t o)) q = r_get (fst (r_step (p_vals s) o)) q.
+Proof. exact step_refines_reference_partial. Qed.
+Print Assumptions c39_step_refines_reference_partial.
+
+(* The trigger is exact: the first ghost move of a history always shows in some
+   lookup, and so does a ghost move at any later point (against the flat map
+   restarted from the cache content). *)
+Theorem c39_trigger_exact : forall root ops o,
+  forallb valid_op ops = true -> valid_op o = true ->
+  ptrigger root ops = false ->
+  pghost_move (p_run (p_init root) ops) (r_run (r_init root) ops) o = true ->
+  exists q, get (run (init root) (ops ++ [o])) q <> r_get (r_run (r_init root) (ops ++ [o])) q.
+Proof. exact trigger_exact. Qed.
+Print Assumptions c39_trigger_exact.
+
+Theorem c39_ghost_step_differs : forall root ops o,
+  forallb valid_op ops = true -> valid_op o = true ->
+  let t := run (init root) ops in let s := p_run (p_init root) ops in
+  pghost_here s o = true ->
+  exists q, get (fst (step t o)) q <> r_get (fst (r_step (p_vals s) o)) q.
+Proof. exact ghost_here_differs. Qed.
+Print Assumptions c39_ghost_step_differs.
+
+(* Returned values against the flat map: the node returned by Get/Ensure, whether
+   Ensure ran its generator; Move's non-nil result agrees whenever the source
+   directory exists exactly when the flat map has something at or below it. *)
 Theorem c39_returns_agree : forall root ops o, forallb valid_op ops = true ->
-  trigger root ops = false ->
+  ptrigger root ops = false ->
   let t := run (init root) ops in let m := r_run (r_init root) ops in
+  let s := p_run (p_init root) ops in
   match o with
-  | Move old _ => has t old = r_has m old -> snd (step t o) = snd (r_step m o)
+  | Move old _ => p_has s old = r_has m old -> snd (step t o) = snd (r_step m o)
   | _ => snd (step t o) = snd (r_step m o)
   end.
-Proof. exact returns_agree. Qed.
+Proof. exact returns_agree_p. Qed.
 Print Assumptions c39_returns_agree.
 
-(* Unconditional facts about single operations, for every tree and every path:
+(* Unconditional facts about single operations, for every tree and every path,
+   on lookups AND on FsNode existence (placeholders):
    moved subtrees appear under the new path and nowhere else ... *)
-Theorem c39_move_relocates : forall t old new src q, old <> [] -> new <> [] ->
-  node_at t old = Some src ->
+Theorem c39_move_relocates : forall t old new q, old <> [] -> new <> [] ->
+  has t old = true ->
   get (fst (move t old new)) q =
-    if is_prefix new q then get t (old ++ skipn (length new) q)
-    else if is_prefix old q then None else get t q.
-Proof. exact move_relocates. Qed.
+    (if is_prefix new q then get t (old ++ skipn (length new) q)
+     else if is_prefix old q then None else get t q)
+  /\ has (fst (move t old new)) q =
+    (if is_prefix new q then has t (old ++ skipn (length new) q)
+     else (if is_prefix old q then false else has t q) || is_prefix q new)
+  /\ snd (move t old new) = true.
+Proof. exact move_relocates_has. Qed.
 Print Assumptions c39_move_relocates.
 
 (* ... a Move with a missing source changes nothing ... *)
 Theorem c39_move_missing_source : forall t old new,
-  node_at t old = None -> move t old new = (t, false).
-Proof. exact move_missing. Qed.
+  has t old = false -> move t old new = (t, false).
+Proof. exact move_missing_has. Qed.
 Print Assumptions c39_move_missing_source.
 
-(* ... deleted subtrees are gone and nothing else is touched ... *)
+(* ... deleted subtrees are gone (nodes and directories) and nothing else is touched ... *)
 Theorem c39_delete_removes_subtree : forall p t q,
   get (delete t p) q = if is_prefix p q then None else get t q.
 Proof. exact delete_removes_subtree. Qed.
 Print Assumptions c39_delete_removes_subtree.
 
-(* ... a set is seen at its path and only there ... *)
+Theorem c39_delete_removes_dirs : forall p t q, q <> [] ->
+  has (delete t p) q = if is_prefix p q then false else has t q.
+Proof. exact delete_removes_dirs. Qed.
+Print Assumptions c39_delete_removes_dirs.
+
+(* ... a set is seen at its path and only there, and creates the directories above it ... *)
 Theorem c39_set_get : forall p t v q,
   get (set t p v) q = if path_eqb q p then Some v else get t q.
 Proof. exact get_set. Qed.
 Print Assumptions c39_set_get.
+
+Theorem c39_set_creates_dirs : forall p t v q, has (set t p v) q = is_prefix q p || has t q.
+Proof. exact set_creates_dirs. Qed.
+Print Assumptions c39_set_creates_dirs.
 
 (* ... and EnsureFsNode runs its generator exactly when the lookup is nil. *)
 Theorem c39_ensure_generator : forall t p fresh,
@@ -77,14 +146,18 @@ Proof. exact ensure_calls_generator_iff_absent. Qed.
 Print Assumptions c39_ensure_generator.
 
 (* non-vacuity: a long valid history with moves into the own subtree, onto an
-   existing directory, of a subtree, and deletes stays outside the trigger, and
-   the witness of the refutation is inside it *)
+   existing directory, of a subtree, and deletes stays outside the trigger
+   (lookups and placeholder existence computed); both refutation witnesses are
+   inside it; after a ghost move one later step is a ghost move and another is not *)
 Example c39_example :
-  let ops := [Set_ ["a"] 1%N; Set_ ["a"; "x"] 2%N; Set_ ["a"; "x"; "y"] 3%N; Set_ ["b"; "x"] 4%N;
-              Move ["a"] ["a"; "x"]; Move ["a"; "x"; "x"] ["b"]; Delete ["a"; "x"; "x"];
-              Ensure ["b"; "y"] 5%N; Move ["b"] ["b"]; Move ["nope"] ["b"]] in
-  forallb valid_op ops = true /\ trigger (Some 0%N) ops = false /\
-  map (get (run (init (Some 0%N)) ops)) [[]; ["a"]; ["a"; "x"]; ["b"]; ["b"; "y"]; ["b"; "x"]]
+  forallb valid_op example_ops = true /\ ptrigger (Some 0%N) example_ops = false /\
+  map (get (run (init (Some 0%N)) example_ops)) [[]; ["a"]; ["a"; "x"]; ["b"]; ["b"; "y"]; ["b"; "x"]]
     = [Some 0%N; None; Some 1%N; Some 2%N; Some 3%N; None] /\
-  trigger None witness_ops = true.
-Proof. vm_compute. repeat split; reflexivity. Qed.
+  map (has (run (init (Some 0%N)) example_ops)) [["a"]; ["a"; "x"]; ["a"; "x"; "x"]; ["c"]]
+    = [true; true; false; false] /\
+  ptrigger None witness3 = true /\ ptrigger None witness_ops = true /\
+  (let ops := witness3 ++ [Set_ ["a"; "y"] 7%N] in
+   pghost_here (p_run (p_init None) ops) (Move ["a"] ["c"]) = false /\
+   pghost_here (p_run (p_init None) ops) (Move ["b"] ["a"; "y"]) = true).
+Proof. exact example_history. Qed.
+Print Assumptions c39_example.
